@@ -1,6 +1,7 @@
 """C10 -- tier set operations obey the algebra of labelled time."""
 import itertools
-from .. import core, gen, tierops
+import sys
+from .. import core, gen, tierops, obshist
 
 ID = "C10"
 MODULE = "Check.C10Check"
@@ -65,6 +66,11 @@ def generate(tier, rng):
         sel = None if rng.random() < 0.4 else rng.sample(names, rng.randint(1, len(names)))
         cases.append({"op": "mergeTiers", "tiers": tiers, "args": {"names": sel, "preserve": rng.random() < 0.6},
                       "scale": gen.pick_scale(rng)})
+    # operands whose boundaries are binary64 neighbours (an overlap of one ulp is an overlap)
+    elig = [c for c in cases if c["op"] != "mergeTiers" and gen.near_ok(c["tier"]["entries"], c["args"]["other"]["entries"])]
+    for c in rng.sample(elig, min(len(elig), 800 if tier == "quick" else 20000)):
+        cases.append(dict(c, scale=["near", 1]))
+
     return cases
 
 
@@ -174,3 +180,13 @@ def shrinks(case):
 
 def finding_match(case, r, kind, why, findings):
     return None
+
+
+def _obs_term(kind, state, st, res):
+    o = st["args"]["other"]
+    if kind == "P":
+        return "UnionP %s %s %s" % (core.cptier(state), core.cptier(o), obshist.res_tier(res, core.cptier))
+    return "SetI %s %s %s %s" % (OPS[st["op"]], core.citier(state), core.citier(o), obshist.res_tier(res, core.citier))
+
+
+obshist.install(sys.modules[__name__], ["union", "difference", "intersection", "mergeLabels"], ["union"], _obs_term)
